@@ -662,4 +662,35 @@ theorem firstFlights_of_capture (fl : Flow) (hne : clientEp fl ≠ serverEp fl) 
 
 end Capture
 
+/-! ### D. the write loop takes what ANY TLS conversation exports, under range conditions that evaluation can check -/
+
+section Fits
+open TLX.MainLoop TLX.Props.C01File TLX.Props.C01File2 TLX.Export
+
+/-- the range conditions of `Props.C01File2.connOut_fits` for one conversation, as a Boolean: no record above 65495 bytes,
+    fewer than 2^32 − 1 exported bytes in all, both exported ports below 2^16 -/
+def fitsB (H : Crypto.Prims) (P : Cipher.Prims) (info : Nat → Pipeline.Info) (kl : List Keylog.Key) (c : Pipeline.Conn) : Bool :=
+  (sessTraffic H P info c kl).all (fun e => decide ((e.data.getD TcpOut.placeholder).length ≤ 65495)) &&
+  decide ((dirPlain false (sessTraffic H P info c kl)).length + (dirPlain true (sessTraffic H P info c kl)).length + 1 < 2 ^ 32) &&
+  decide (c.client.port < 65536) &&
+  decide (TcpOut.exportedServerPort c.opts.keep (Pipeline.portmapFn c.opts.portmap) c.server.port < 65536)
+
+theorem conv_fits (H : Crypto.Prims) (P : Cipher.Prims) (info : Nat → Pipeline.Info) (kl : List Keylog.Key)
+    (c : Pipeline.Conn) (h : fitsB H P info kl c = true) (hts : ∀ id, (info id).ts < 2 ^ 64) :
+    ∀ q ∈ (Pipeline.connOut H P info c kl).getD [], WritesOk q := by
+  simp only [fitsB, Bool.and_eq_true, List.all_eq_true, decide_eq_true_eq] at h
+  obtain ⟨⟨⟨h1, h2⟩, h3⟩, h4⟩ := h
+  have hsome := (connOut_never_raises H P info c kl).2.2
+  have heq := connOut_eq H P info c kl
+  rw [heq, Option.isSome_map] at hsome
+  obtain ⟨frames, hb⟩ := Option.isSome_iff_exists.mp hsome
+  have hconn : Pipeline.connOut H P info c kl = some (frames.map (Pipeline.addressed c.opts c)) := by rw [heq, hb]; rfl
+  have hre := Props.C06.reassemble_build _ _ hb
+  rw [dirBytes_toRec, dirBytes_toRec] at hre
+  have := connOut_fits H P info c kl frames _ _ hconn hre (fun e he => h1 e he) h2 h3 h4 hts
+  rw [hconn]
+  exact this
+
+end Fits
+
 end TLX.Lemmas.C01All
